@@ -221,7 +221,7 @@ func (f *Family) Explore(scn *Scenario, tier string, maxStates int) *ScenarioSta
 				if res.Panic != "" {
 					st.Extra["cycles_panicked"]++
 					if len(st.SampleTrace) < 4 {
-						st.SampleTrace = append(st.SampleTrace, fmt.Sprintf("PANIC at %v + cycle[%s]: %.300s", n.path, j.cfg.Label(), res.Panic))
+						st.SampleTrace = append(st.SampleTrace, fmt.Sprintf("PANIC at %v + cycle[%s]: %.3000s", n.path, j.cfg.Label(), res.Panic))
 					}
 				}
 				if j.level > 0 {
